@@ -84,3 +84,28 @@ func (ss sniffSet) collect(wait time.Duration) []FrameRes {
 		time.Sleep(200 * time.Microsecond)
 	}
 }
+
+// collectQuiet drains all sniffers until nothing has arrived for quiet (at most max in total): everything
+// the server put on the wire before the call is returned, not just what had reached the socket already.
+func (ss sniffSet) collectQuiet(quiet, max time.Duration) []FrameRes {
+	var out []FrameRes
+	end := time.Now().Add(max)
+	last := time.Now()
+	for {
+		got := false
+		for _, s := range ss {
+			for _, f := range s.drain() {
+				out = append(out, FrameRes{If: s.name, Hex: f})
+				got = true
+			}
+		}
+		now := time.Now()
+		if got {
+			last = now
+		}
+		if now.Sub(last) >= quiet || now.After(end) {
+			return out
+		}
+		time.Sleep(200 * time.Microsecond)
+	}
+}
